@@ -12,9 +12,11 @@ run(c, binary, labels, tier, focus):
      against the same sequential specifications) + panic capture — the search oracle, run briefly on
      every run and longer when 1/2 found a problem;
   4. report."""
+import os
+import re
 import subprocess
 
-from common import GOENV, MODELRUN
+from common import GOENV, MODELRUN, REPO
 
 OBJECTS = [
     # lock-step model, Go files, stress objects, theorems that transfer through the correspondence
@@ -68,13 +70,103 @@ def biglist(c, binary, kind, readers, ms):
                    % (c.seed, kind, readers, ms)}, first
 
 
+# ---- declarations are not statements: pin the fields of the four types (name + type text) ----
+STRUCTS = {
+    "cpq": ("queue/concurrent_priority_queue.go", "ConcurrentPriorityQueue", ["pq queue.PriorityQueue[T]", "m sync.RWMutex"]),
+    "clist": ("list/concurrent_list.go", "ConcurrentList", ["List[T]", "lock sync.RWMutex"]),
+    "cow": ("list/copy_on_write_array_list.go", "CopyOnWriteArrayList", ["vals []T", "mutex *sync.Mutex"]),
+    "syncmap": ("syncx/map.go", "Map", ["m sync.Map"]),
+}
+
+
+def struct_pin(model):
+    """the field list of the type as the CURRENT source declares it must be the one the model's lock protocol was
+    written for (a lock type with no-op RLock, a missing mutex, ... carry no statement label); also the file must
+    import the standard "sync" package under its own name.  Returns a list of problems."""
+    rel, name, want = STRUCTS[model]
+    try:
+        src = open(os.path.join(REPO, rel), encoding="utf-8").read()
+    except OSError as e:
+        return ["cannot read %s: %s" % (rel, e)]
+    code = re.sub(r"/\*.*?\*/", "", src, flags=re.S)
+    code = re.sub(r"//[^\n]*", "", code)
+    m = re.search(r"\btype\s+%s\s*(?:\[[^\]]*\])?\s+struct\s*\{([^}]*)\}" % re.escape(name), code)
+    if not m:
+        return ["%s: no `type %s struct` declaration found" % (rel, name)]
+    got = [" ".join(l.split()) for l in m.group(1).splitlines() if l.strip()]
+    problems = []
+    if got != want:
+        problems.append("declaration of %s changed: fields %r, the model was written for %r" % (name, got, want))
+    imp = re.search(r"\bimport\s*\(([^)]*)\)|\bimport\s+(\S*\s*\"[^\"]+\")", code)
+    imports = [" ".join(l.split()) for l in (imp.group(1) or imp.group(2) or "").splitlines() if l.strip()] if imp else []
+    if '"sync"' not in imports:
+        problems.append("%s does not import the standard \"sync\" package under its own name (imports: %r)" % (rel, imports))
+    return problems
+
+
+def race_stress(c, race_binary, obj, rounds):
+    """the same chaos stress on the -race build: an ineffective lock (no-op RLock, missing bracket) makes a reader race
+    with a writer on the inner container; the detector's report is the concrete run"""
+    cmd = [race_binary, "c06-locked-stress", str(c.seed), obj, "4", "10", str(rounds)]
+    env = dict(GOENV, GORACE="halt_on_error=1 exitcode=66")
+    try:
+        p = subprocess.run(cmd, stdout=subprocess.PIPE, stderr=subprocess.PIPE, text=True, timeout=600, env=env)
+        err = p.stderr
+    except subprocess.TimeoutExpired:
+        return None
+    if "WARNING: DATA RACE" not in err:
+        return None
+    lines = err.splitlines()
+    frames = [l.strip() for l in lines if "ekit" in l and "(" in l and not l.strip().startswith("/")][:4]
+    return {"object": obj, "kind": "data-race",
+            "result": "data race reported by the Go race detector between concurrent calls: " + " | ".join(frames)[:330],
+            "history": lines[:60],
+            "how": "h(-race build) c06-locked-stress %d %s 4 10 %d   (GORACE=halt_on_error=1)" % (c.seed, obj, rounds)}
+
+
+def maprange(c, binary, cases, ms):
+    """syncx.Map.Range: sequential contract against a mirror map + the weak concurrent contract (harness/locked/maprange.go)"""
+    cmd = [binary, "c06-locked-maprange", str(c.seed), str(cases), str(ms)]
+    try:
+        p = subprocess.run(cmd, stdout=subprocess.PIPE, stderr=subprocess.PIPE, text=True, timeout=300 + ms // 1000, env=GOENV)
+        out = p.stdout.strip() or ("crash: " + p.stderr[-800:])
+    except subprocess.TimeoutExpired:
+        out = "hang: the Map.Range scenario did not finish"
+    first = out.splitlines()[0] if out else "no output"
+    if first.startswith("ok "):
+        return None, first
+    kind = first.split()[0].rstrip(":")
+    if kind not in ("range-contract", "hang"):
+        kind = "crash"
+    return {"object": "syncmap", "kind": kind, "result": first[:500],
+            "how": "h c06-locked-maprange %d %d %d   (sequential differential against a mirror map, then the concurrent weak contract)"
+                   % (c.seed, cases, ms)}, first
+
+
 def run(c, binary, labels, tier, focus="c06"):
     nsched, maxev = (250, 90) if tier == "quick" else (5000, 140)
     rounds = 150 if tier == "quick" else 4000
     summary = {}
+    # -race build of the same instrumented harness (search oracle for ineffective locks)
+    race_binary, race_note = None, ""
+    try:
+        ov, _ = c.instrument()
+        if ov is not None:
+            race_binary, log = c.build_harness(race=True, extra_overlay=ov, pkgs=["locked", "lockstep"])
+            if race_binary is None:
+                race_note = "race build failed: " + str(log)[-300:]
+    except Exception as e:                                      # the race oracle is a complement, never a violation by itself
+        race_note = "race build not available: %s" % e
+    race_objs = {"cpq": ["cpq"], "clist": ["clist-array", "clist-linked"]} if tier == "quick" else \
+        {"cpq": ["cpq"], "clist": ["clist-array", "clist-linked"], "cow": ["cow"], "syncmap": ["syncmap"]}
+    race_rounds = 40 if tier == "quick" else 1500
+    c.cov["locked_race"] = {"available": race_binary is not None, "note": race_note, "rounds": race_rounds, "objects": race_objs, "reports": 0}
     for model, what, sobjs, theorems in OBJECTS:
         name = model + "-lockstep"
         problems = c.check_labels(name, labels)
+        decl = struct_pin(model)
+        c.cov.setdefault("locked_declarations", {})[model] = decl or "as expected"
+        problems = problems + decl
         rc, txt, merr, gerr = c.lockstep(binary, name, ["run", c.seed, nsched, maxev])
         stats, tags, samples, mism = c.parse_lockstep_report(txt)
         c.cov[model + "_lockstep"] = dict(stats, coverage_tags=tags, skeleton_problems=len(problems))
@@ -101,6 +193,21 @@ def run(c, binary, labels, tier, focus="c06"):
                         break
                 if hits:
                     break
+        if race_binary is not None:
+            for so in race_objs.get(model, []):
+                h = race_stress(c, race_binary, so, race_rounds if not broken else max(race_rounds, 400))
+                c.cov["evaluations"] += 1
+                if h:
+                    c.cov["locked_race"]["reports"] += 1
+                    hits.append(h)
+                    break
+        if model == "syncmap":
+            cases, ms = (300, 300) if tier == "quick" else (5000, 5000)
+            h, line = maprange(c, binary, cases, ms)
+            c.cov["syncmap_range"] = {"result": line[:200], "sequential_cases": cases, "concurrent_ms": ms}
+            c.cov["evaluations"] += cases
+            if h:
+                hits.append(h)
         if model == "clist":
             # big-list snapshot: reads that are atomic only for small lists (batched copies etc.)
             ms = 500 if tier == "quick" else 8000
@@ -117,7 +224,7 @@ def run(c, binary, labels, tier, focus="c06"):
         c.cov[model + "_stress"] = {"objects": sobjs, "rounds": rounds, "goroutines": 4, "ops_per_goroutine": 10,
                                     "hits": len(hits)}
         c.cov["evaluations"] += rounds * len(sobjs)
-        for h in hits[:2]:
+        for h in hits[:3]:
             c.report("%s:locked:%s:%s" % (c.pid, model, h["kind"]),
                      "%s: %s" % (what, h["result"]), dict(h, kind="stress-history", violation=h["kind"]))
         if broken and not hits:
@@ -151,7 +258,7 @@ RULE = ("lock-based containers: lock-step schedules chosen by the extracted mode
         "LoadOrStore halves of a LoadOrStoreFunc or fn's value is discarded (syncmap); plus chaos-mode histories checked by porcupine")
 ASSUMPTIONS = [
     "sync.Mutex / sync.RWMutex: Lock enabled iff free, RLock iff no writer holds it (trusted specification; writer preference only removes behaviours)",
-    "sync.Map: Load/Store/LoadOrStore/LoadAndDelete/Delete are atomic (documented contract); Map.Range is outside the claim (sync.Map.Range is documented not to be a snapshot)",
+    "sync.Map: Load/Store/LoadOrStore/LoadAndDelete/Delete are atomic (documented contract); concurrent Map.Range is outside the linearizability claim (sync.Map.Range is documented not to be a snapshot) — its sequential contract and the weak concurrent contract are checked by c06-locked-maprange",
     "CopyOnWriteArrayList: slices as values — every slice a statement writes to was made in the same call and is published by one assignment (pinned by the statement skeleton check)",
     "the inner sequential objects (heap, ArrayList, LinkedList) are represented by their sequential specifications (sorted multiset, sequence); their own correctness is C05/C04",
     "interleavings inside one Go statement are modelled only for the delegating `return inner.Op()` statement (read / write-back); LoadOrStoreFunc's fn is a pure function of the call's arguments",
